@@ -33,12 +33,16 @@ Write(i) == UNCHANGED <<reg, nm>> /\ Step("write", i, IF i \in reg THEN (IF nm[i
 \* payload types are registered for a vendor operation (another registry: operation number |-> Go types, whose names an application
 \* chooses freely - here they are those of a standard operation): names and numbers of the enumerations are untouched
 Payloads == UNCHANGED <<reg, nm>> /\ Step("payloads", 0, "ok")
+\* a registered mask is registered again with its flags followed by vendor flags: every earlier name keeps its bit, the new names take
+\* the next bits, one name per bit and one bit per name (the enumerations are untouched)
+MaskExtend == UNCHANGED <<reg, nm>> /\ Step("mask-extend", 0, "ok")
 Next == /\ Len(hist) < MaxLen
         /\ \/ \E i \in Slots : (Register(i) \/ ByName(i) \/ ByValue(i) \/ Write(i))
            \/ Swap
            \/ BaseByName
            \/ BaseByValue
            \/ Payloads
+           \/ MaskExtend
 Spec == Init /\ [][Next]_vars
 \* the registry is a bijection between registered slots and the names they carry, at every step
 Bijective == \A n \in Slots : Cardinality(Holder(n)) <= 1
